@@ -318,6 +318,10 @@ func runC14(c *Ctx, r *Report, tier string) {
 		_, a := c.Requires(ri, isInstr(h), litHas(true, "nonempty("+lineT), nil)
 		_, b := c.Requires(ri, isInstr(h), litHas(false, "eq(59, idx("+lineT), nil)
 		_, d := c.Requires(ri, isInstr(h), litHas(false, "eq(35, idx("+lineT), nil)
+		if what == "key=value test" {
+			path, e := c.Requires(ri, isInstr(h), litHas(false, "eq(91, idx("+lineT), nil)
+			r.Check(e, "CLASSIFY", fname, "a line starting with '[' is a section header or an error, never an entry", c.ipos(h), "REQ(first byte != '[')", "an unclosed `[header` line falls through to the key=value handling: "+pathStr(path))
+		}
 		r.Check(a && b && d, "CLASSIFY", fname, what+" only for non-blank, non-comment lines", c.ipos(h), "REQ(non-empty) ∧ REQ(first byte != ';') ∧ REQ(first byte != '#')", fmt.Sprintf("non-empty=%v not-';'=%v not-'#'=%v", a, b, d))
 	}
 	// names and values are trimmed
